@@ -560,7 +560,6 @@ class UartRxInst(PInst):
             if self.noise and rng.random() < 0.3:
                 n = rng.randint(1, 40)
                 self._line = [rng.randint(0, 1) for _ in range(n)]
-                self._mon.clean = False
             else:
                 # bit period of the transmitter in cycles, as a fraction: (2^32/tw) * num/den
                 num, den = self.mismatch
@@ -573,7 +572,8 @@ class UartRxInst(PInst):
                 gap = rng.choice([0, 1, 2, bitp // 2, bitp, 3 * bitp]) if rng.random() < 0.7 else rng.randint(0, 12 * bitp)
                 self._line = fl + [1] * gap
                 t0 = self._t
-                self._mon.announce(byte, t0, t0 + len(fl))
+                if not self.noise:          # noisy stimulus: the monitor decodes the pad history itself
+                    self._mon.announce(byte, t0, t0 + len(fl))
         v = self._line.pop(0)
         self._t += 1
         return (v,)
@@ -820,8 +820,7 @@ class SpiSlaveInst(PInst):
                        [pads.miso, core.start, core.length, core.done, core.irq, core.mosi], alphabet, None,
                        lambda l, o: (not l[1]) or o[4])
         self._script = []
-        if wellformed:
-            self.monitor = lambda: SpiSlaveMonitor(dw)
+        self.monitor = lambda: SpiSlaveMonitor(dw)        # skips frames that are not well-formed on the pads
 
     def gen(self, rng, t):
         if t == 0:
